@@ -90,6 +90,7 @@ pub fn single_file_layout(n: usize) -> Layout {
         }],
         xor_key: None,
         magic_mode: 0,
+        xor_symlink: false,
         extra_files: vec![],
     }
 }
@@ -129,6 +130,7 @@ pub fn random_layout(n: usize, max_files: usize, junk: bool, rng: &mut Rng) -> L
         files,
         xor_key: None,
         magic_mode: 0,
+        xor_symlink: false,
         extra_files: vec![],
     }
 }
@@ -185,6 +187,8 @@ pub fn index_opts(rng: &mut Rng) -> IndexOpts {
         active_extra_status: *rng.pick(&[0u64, 0, 128, 128, 256, 384]),
         active_clear_status: 0,
         ntx_mode: if rng.chance(1, 4) { rng.range(1, 3) as u8 } else { 0 },
+        key_overrides: vec![],
+        file_info: rng.chance(1, 3),
     }
 }
 
